@@ -915,6 +915,9 @@ func TestRun(t *testing.T) {
 		callbackNested(rec, kind, []int{1, 2, 16}[i%3], 1+i%4)
 		rec.Eval(fmt.Sprintf("callback-nested|%s|%d", kind, i))
 	}
+	if rec.NViolations() <= 3 {
+		uploadsWhileNesting(rec, vr.Scale(12, 240))
+	}
 	rec.Count("reader_hook_point_hits", hookHits.Load())
 	rec.Assume("arrival order is asserted only in pure-server workloads (no client call runs on the connection, so the reader loop is never replaced)")
 	rec.Assume("liveness is bounded progress: after the peer has delivered every awaited response, all blocking calls must return within a 15 s watchdog; a firing watchdog is a violation only if a goroutine is parked in doInternal/waitForAcknowledge, otherwise inconclusive")
